@@ -1,13 +1,136 @@
-/- Line-protocol driver for M-Schema (stub until the model lands). Core-only. -/
+/-
+Line-protocol driver for M-Schema (SCHEMA_PROTOCOL.md). Core-only (lean_exe schemadrv).
+-/
+import ThriftVerif.Schema.Text
+import ThriftVerif.Schema.WireEq
+
+open ThriftVerif.Wire ThriftVerif.Schema
+
+def fuelOf (toks : List String) : Nat := 4 * toks.length + 64
+
+def errText' : Err → String
+  | .bad => "err" | .fuel => "fuel"
+
+def parseTG (toks : List String) : Option (Ty × GVal × List String) :=
+  match parseTy (toks.length + 2) toks with
+  | some (t, r) =>
+    match parseG (2 * r.length + 2) r with
+    | some (g, r') => some (t, g, r')
+    | none => none
+  | none => none
+
+def parseEnumItems : Nat → List String → Option (List (String × UInt32))
+  | 0, [] => some []
+  | n + 1, name :: v :: r =>
+    match v.toNat?, parseEnumItems n r with
+    | some v, some rest => some ((name, UInt32.ofNat v) :: rest)
+    | _, _ => none
+  | _, _ => none
+
+def step (env : Env) (line : String) : Env × String :=
+  let toks := (line.trimAscii.toString.splitOn " ").filter (· ≠ "")
+  let fuel := fuelOf toks
+  match toks with
+  | ["reset"] => ({}, "ok")
+  | "enum" :: name :: n :: rest =>
+    match n.toNat? with
+    | some n =>
+      match parseEnumItems n rest with
+      | some items => ({ env with enums := (name, items) :: env.enums }, "ok")
+      | none => (env, "bad-op")
+    | none => (env, "bad-op")
+  | "struct" :: name :: kind :: n :: rest =>
+    match parseKind kind, n.toNat? with
+    | some k, some n =>
+      match parseFields n rest with
+      | some (fs, []) => ({ env with structs := ⟨name, k, fs⟩ :: env.structs.filter (·.name != name) }, "ok")
+      | _ => (env, "bad-op")
+    | _, _ => (env, "bad-op")
+  | "towire" :: rest =>
+    match parseTG rest with
+    | some (t, g, []) =>
+      match toWire env fuel t g with
+      | .ok w => (env, "ok " ++ w.text)
+      | .error e => (env, errText' e)
+    | _ => (env, "bad-op")
+  | "encode" :: rest =>
+    match parseTG rest with
+    | some (t, g, []) =>
+      match encodeS env fuel t g with
+      | .ok ops => (env, "ok " ++ hexOrDash (runOps ops))
+      | .error e => (env, errText' e)
+    | _ => (env, "bad-op")
+  | "fromwire" :: rest =>
+    match parseTy (rest.length + 2) rest with
+    | some (t, r) =>
+      match parseValue r with
+      | some (w, []) =>
+        match fromWire env fuel t w with
+        | .ok g => (env, "ok " ++ g.text)
+        | .error e => (env, errText' e)
+      | _ => (env, "bad-op")
+    | none => (env, "bad-op")
+  | "decode" :: rest =>
+    match parseTy (rest.length + 2) rest with
+    | some (t, [hex]) =>
+      match bytesOfHex hex with
+      | some bs =>
+        match decodeS env (fuelFor bs + 64) t bs with
+        | .ok (g, r) => (env, s!"ok {bs.length - r.length} {g.text}")
+        | .error e => (env, errText' e)
+      | none => (env, "bad-op")
+    | _ => (env, "bad-op")
+  | "equals" :: rest =>
+    match parseTG rest with
+    | some (t, a, r) =>
+      match parseG (2 * r.length + 2) r with
+      | some (b, []) => (env, if equalsG env fuel t a b then "ok 1" else "ok 0")
+      | _ => (env, "bad-op")
+    | none => (env, "bad-op")
+  | "weq" :: rest =>
+    match parseValue rest with
+    | some (a, r) =>
+      match parseValue r with
+      | some (b, []) => (env, if wireEq fuel a b then "ok 1" else "ok 0")
+      | _ => (env, "bad-op")
+    | none => (env, "bad-op")
+  | ["default", name] =>
+    match env.find name with
+    | some sd =>
+      match defaultCtor sd with
+      | some g => (env, "ok " ++ g.text)
+      | none => (env, "none")
+    | none => (env, "bad-op")
+  | "get" :: name :: idx :: rest =>
+    match env.find name, idx.toNat?, parseG (2 * rest.length + 2) rest with
+    | some sd, some i, some (g, []) =>
+      match getField sd i g with
+      | some r => (env, "ok " ++ r.text)
+      | none => (env, "bad-op")
+    | _, _, _ => (env, "bad-op")
+  | "isset" :: _ :: idx :: rest =>
+    match idx.toNat?, parseG (2 * rest.length + 2) rest with
+    | some i, some (g, []) => (env, if isSetField i g then "ok 1" else "ok 0")
+    | _, _ => (env, "bad-op")
+  | "string" :: rest =>
+    match parseTG rest with
+    | some (t, g, []) => (env, " ".intercalate ("ok" :: sortStrings (visible env false fuel t g).eraseDups))
+    | _ => (env, "bad-op")
+  | "zap" :: rest =>
+    match parseTG rest with
+    | some (t, g, []) => (env, " ".intercalate ("ok" :: sortStrings (visible env true fuel t g).eraseDups))
+    | _ => (env, "bad-op")
+  | _ => (env, "bad-op")
+
+partial def loop (hin hout : IO.FS.Stream) (env : Env) : IO Unit := do
+  let line ← hin.getLine
+  if line.isEmpty then return ()
+  let (env', out) := step env line
+  hout.putStrLn out
+  loop hin hout env'
+
 def main : IO Unit := do
   let hin ← IO.getStdin
   let hout ← IO.getStdout
-  let rec loop : Nat → IO Unit
-    | 0 => pure ()
-    | n + 1 => do
-      let line ← hin.getLine
-      if line.isEmpty then return ()
-      hout.putStrLn "bad-op"
-      loop n
-  loop 1000000000
+  loop hin hout {}
   hout.flush
